@@ -8,8 +8,9 @@
 package main
 
 import (
-	"os"
 	"fmt"
+	"os"
+	"strings"
 
 	"verif/mc/chainmc"
 	"verif/mc/chainprop"
@@ -23,7 +24,7 @@ func newModel(thorough bool) *chainprop.Model {
 	m.Std()
 	m.StdDrive()
 	m.Singles(false)
-	m.GapSingles() // a sender's second transaction after its first one was dropped by the builder's own filter
+	m.GapSingles()  // a sender's second transaction after its first one was dropped by the builder's own filter
 	m.TipsSingles() // every template once more with tips (tips are paid on top of amount and fee)
 	if thorough {
 		m.Pairs()
@@ -50,6 +51,29 @@ func newModel(thorough bool) *chainprop.Model {
 			}
 		}
 	}
+	// --- appended last, so that the indices of the earlier actions stay what saved replays recorded ---
+	// A transaction that the builder validates and then SKIPS must leave nothing behind. Validation reads are
+	// not read-only (Delegatee / GetInviter / DelegationEpoch create an identity object for an address that has
+	// none), so the interesting runs are: an earlier transaction of the same sender makes the later one fail
+	// *after* such a read on a fresh address.
+	fresh := []string{"delegate D1->NEW2", "delegate V1->NEW", "delegate X1->NEW2", "killInvitee X1->NEW2", "killDelegator X1->NEW2", "undelegate X1"}
+	for _, n := range fresh {
+		m.Acts = append(m.Acts, chainprop.Action{Name: "1:" + n, Tmpl: []int{m.Idx(n)}})
+	}
+	for _, r := range [][2]string{{"delegate D1->P", "delegate D1->NEW2"}, {"delegate V1->V2", "delegate V1->NEW"}, {"delegate X1->NEW2", "delegate X1->NEW2"}} {
+		m.Acts = append(m.Acts, chainprop.Action{Name: "run:" + r[0] + " + " + r[1], Tmpl: []int{m.Idx(r[0]), m.Idx(r[1])}})
+	}
+	// ... and the sender's balance is drained by its first transaction: every template behind the whole-balance send
+	drain := m.Idx("send X1->Z bal-fee")
+	maxPath := 2
+	if thorough {
+		maxPath = 0
+	}
+	for i := range m.Menu {
+		if i != drain {
+			m.Acts = append(m.Acts, chainprop.Action{Name: "drain:" + m.Menu[i].Name, Tmpl: []int{drain, i}, MaxPath: maxPath})
+		}
+	}
 	m.H.Proposed = func(t *chainprop.Trans) bool {
 		c := t.C
 		// replica B: fresh on the same image, different coinbase, validates + inserts
@@ -64,11 +88,15 @@ func newModel(thorough bool) *chainprop.Model {
 		}
 		c.Count("proposals_validated", 1)
 		if errB := B.Add(t.Block); errB != nil {
-			if t.Act.Direct {
+			if t.Act.Direct || strings.HasPrefix(t.Act.Name, "run:") || strings.HasPrefix(t.Act.Name, "drain:") {
 				// keyed by the input: which transaction was validated by the builder without being included
-				kind = t.Act.Name
+				kind = strings.ReplaceAll(t.Act.Name, " ", "_") // (keys are single tokens)
 			}
-			c.Violation("validator-rejects:"+kind+":"+chainprop.ErrClass(errB), fmt.Sprintf("honest %s block at height %d rejected by a fresh validator: %v (txs=%d)", kind, t.Block.Height(), errB, len(t.Block.Body.Transactions)), chainprop.TxTypes(t.Block))
+			key := "validator-rejects:" + kind + ":" + chainprop.ErrClass(errB)
+			if kind != "proposed" && kind != "empty" {
+				key = strings.ReplaceAll(key, " ", "_") // input-keyed violations: the key is one token (known_findings.txt)
+			}
+			c.Violation(key, fmt.Sprintf("honest %s block at height %d rejected by a fresh validator: %v (txs=%d)", kind, t.Block.Height(), errB, len(t.Block.Body.Transactions)), chainprop.TxTypes(t.Block))
 			return false
 		}
 		t.NextAux["_B"] = "" // marker only
